@@ -13,6 +13,7 @@ from typing import TYPE_CHECKING, Any, BinaryIO, Callable
 
 from dissect.cstruct.bitbuffer import BitBuffer
 from dissect.cstruct.types.base import (
+    BaseArray,
     BaseType,
     MetaType,
     _is_buffer_type,
@@ -170,6 +171,12 @@ class StructureMetaType(MetaType):
         bits_field_offset = 0
         # How many bits we have left in the current bit field
         bits_remaining = 0
+
+        # A member that is an array of the structure being defined (struct node { ...; node kids[n]; }) was declared while the
+        # structure was still empty: it is aligned like the structure itself, which is like the largest of the other members
+        own = [field for field in fields if _element_type(field.type) is cls]
+        for field in own:
+            field.alignment = max((other.alignment for other in fields if other not in own), default=1)
 
         for field in fields:
             if field.offset is not None:
@@ -708,6 +715,13 @@ def _anonymous_values(type_: StructureMetaType, value: Structure) -> dict[str, A
         if field.name is None and isinstance(field.type, StructureMetaType):
             values.update(_anonymous_values(field.type, member))
     return values
+
+
+def _element_type(type_: MetaType) -> MetaType:
+    """The type of the entries of a (multi-dimensional) array, or the type itself if it's not an array."""
+    while issubclass(type_, BaseArray):
+        type_ = type_.type
+    return type_
 
 
 def _continues_unit(field: Field, bit_buffer: BitBuffer) -> bool:
